@@ -1038,6 +1038,9 @@ theorem processBatch_unfold (sv : Server) (adopt : Option (List Cell)) (sv' : Se
        (p.obs.batch ≠ [] ∧ ∃ cells loc logits nx,
           ((cells = evict p.sv.cache.window p.sv.cache.cells p.obs.batch ∧ adopt = none) ∨ adopt = some cells) ∧
           findStartLoc cells p.obs.batch.length = some loc ∧
+          logits = (p.outs.map fun bi =>
+            nextTok p.sv.vocab p.sv.eosMod (visibleW p.sv.cache.window (store cells loc p.obs.batch)
+              (p.obs.batch.getD bi ⟨0, 0, 0⟩).seq (p.obs.batch.getD bi ⟨0, 0, 0⟩).pos)) ∧
           (sv', o) = phase3 logits sv.seqs.length 0
             { p.sv with nextSeq := nx, cache := { p.sv.cache with cells := store cells loc p.obs.batch } }
             { p.obs with outs := (p.outs.zip logits).map fun (bi, t) => ((p.obs.batch.getD bi ⟨0, 0, 0⟩).seq, t) })) := by
@@ -1065,7 +1068,7 @@ theorem processBatch_unfold (sv : Server) (adopt : Option (List Cell)) (sv' : Se
         | some cs => simp [throw, throwThe, MonadExceptOf.throw] at h
         | none =>
           simp only [pure, Except.pure, Except.ok.injEq] at h
-          exact ⟨_, loc, _, _, Or.inl ⟨rfl, rfl⟩, hf, h.symm⟩
+          exact ⟨_, loc, _, _, Or.inl ⟨rfl, rfl⟩, hf, rfl, h.symm⟩
       | none =>
         simp only [hf] at h
         cases adopt with
@@ -1076,7 +1079,7 @@ theorem processBatch_unfold (sv : Server) (adopt : Option (List Cell)) (sv' : Se
           | none => simp [hf2, throw, throwThe, MonadExceptOf.throw] at h
           | some loc =>
             simp only [hf2, pure, Except.pure, Except.ok.injEq] at h
-            exact ⟨cs, loc, _, _, Or.inr rfl, hf2, h.symm⟩
+            exact ⟨cs, loc, _, _, Or.inr rfl, hf2, rfl, h.symm⟩
 
 theorem SInv_of_R (sv : Server) (pend : Nat → List Tok) (n : Nat) (hn : n = sv.seqs.length) (h : R sv pend n n) :
     SInv sv := by
@@ -1120,7 +1123,7 @@ theorem processBatch_SInv (sv : Server) (adopt : Option (List Cell)) (sv' : Serv
     by_cases hex : ∃ i sq, Live p.sv i sq ∧ sq.slot = j
     · obtain ⟨i, sq, hl, rfl⟩ := hex; exact (hP.own.valid i sq hl).2
     · exact absurd (hP.np j hj (fun i sq hl e => hex ⟨i, sq, hl, e⟩)) hne
-  rcases hrest with ⟨hb, hc, hs⟩ | ⟨hb, cells, loc, logits, nx, hcells, hfind, hres⟩
+  rcases hrest with ⟨hb, hc, hs⟩ | ⟨hb, cells, loc, logits, nx, hcells, hfind, _, hres⟩
   · -- nothing to decode
     have hpn : ∀ j, j < p.sv.cache.slots.length → pend j = [] := by
       intro j hj
@@ -1188,6 +1191,136 @@ theorem phase3_outs (logits : List Tok) : ∀ (k i : Nat) (sv : Server) (o : Ste
 theorem getD_mem {α} (l : List α) (i : Nat) (d : α) (h : i < l.length) : l.getD i d ∈ l := by
   rw [List.getD_eq_getElem?_getD, List.getElem?_eq_getElem h]
   exact List.getElem_mem h
+
+theorem mem_zip_map {α β} (f : α → β) : ∀ (l : List α) (a : α) (b : β), (a, b) ∈ l.zip (l.map f) → a ∈ l ∧ b = f a := by
+  intro l
+  induction l with
+  | nil => intro a b h; simp at h
+  | cons x xs ih =>
+    intro a b h
+    simp only [List.map_cons, List.zip_cons_cons, List.mem_cons, Prod.mk.injEq] at h
+    rcases h with ⟨rfl, rfl⟩ | h
+    · exact ⟨List.mem_cons_self .., rfl⟩
+    · obtain ⟨h1, h2⟩ := ih a b h
+      exact ⟨List.mem_cons_of_mem _ h1, h2⟩
+
+theorem key_mem_view (batch : List BTok) (b : BTok) (h : b ∈ batch) :
+    b.cell.key ∈ view (batch.map BTok.cell) b.seq := by
+  unfold view
+  apply List.mem_map.mpr
+  refine ⟨b.cell, List.mem_filter.mpr ⟨List.mem_map.mpr ⟨b, h, rfl⟩, ?_⟩, rfl⟩
+  simp [BTok.cell, Cell.has]
+
+/-- **The tokens processBatch samples are a function of the effective input only.**  For every output of a
+    pass (slot `j`, token `t`): `t` is the scripted model's answer to `record ++ pending` of slot `j` — the
+    slot's record when Forward starts followed by its own inputs of this batch — seen up to the output's
+    position, each input at its own position; i.e. what a fresh runner with an empty cache is shown when it
+    processes that effective input from position 0 (`forward_exposes` on a new cache).  Whatever prefixes were
+    reused, forked or shifted before, and whatever other sequences share the batch. -/
+theorem processBatch_outputs (sv : Server) (adopt : Option (List Cell)) (sv' : Server) (o : StepObs)
+    (hinv : SInv sv) (had : AdoptOK sv adopt) (h : processBatch sv adopt = .ok (sv', o)) :
+    ∃ (p : Ph1) (pend : Nat → List Tok), phase1 sv.seqs.length (ph1Init sv) = .ok p ∧
+      ∀ x ∈ o.outs, x.1 < p.sv.cache.slots.length ∧ ∃ pos : Nat,
+        (getSlot p.sv.cache.slots x.1).inputs.length ≤ pos ∧
+        pos < (getSlot p.sv.cache.slots x.1).inputs.length + (pend x.1).length ∧
+        x.2 = nextTok p.sv.vocab p.sv.eosMod (idealHistory ((getSlot p.sv.cache.slots x.1).inputs ++ pend x.1) pos) := by
+  obtain ⟨p, hp1, hrest⟩ := processBatch_unfold sv adopt sv' o h
+  have hP0 : PInv (ph1Init sv).sv (ph1Init sv).obs.batch (fun _ => []) := by
+    refine ⟨hinv.coh, hinv.cfg, hinv.own, ⟨fun j hj => ⟨rfl, by have := hinv.lenb j hj; simp only [ph1Init, List.length_nil, Nat.add_zero]; exact this⟩, fun t ht => by cases ht⟩,
+      fun i sq hl => hinv.idle i sq hl, fun _ _ _ => rfl⟩
+  obtain ⟨⟨pend, hP⟩, hlen, hbo⟩ := phase1_PInv sv.seqs.length (ph1Init sv) p hp1 (Nat.le_refl _)
+    (fun i sq hl hne => absurd (hinv.idle i sq hl) hne) ⟨_, hP0⟩ (by
+      unfold BO ph1Init
+      refine ⟨?_, ?_, rfl⟩
+      · intro t ht; cases ht
+      · intro bi hbi; cases hbi)
+  refine ⟨p, pend, hp1, ?_⟩
+  have hpu : ∀ j, j < p.sv.cache.slots.length → pend j ≠ [] → (getSlot p.sv.cache.slots j).inUse = true := by
+    intro j hj hne
+    by_cases hex : ∃ i sq, Live p.sv i sq ∧ sq.slot = j
+    · obtain ⟨i, sq, hl, rfl⟩ := hex; exact (hP.own.valid i sq hl).2
+    · exact absurd (hP.np j hj (fun i sq hl e => hex ⟨i, sq, hl, e⟩)) hne
+  rcases hrest with ⟨hb, _, _⟩ | ⟨hb, cells, loc, logits, nx, hcells, hfind, hlog, hres⟩
+  · -- nothing decoded: no outputs (processBatch returns phase1's observations)
+    intro x hx
+    exfalso
+    have ho : o = p.obs := by
+      unfold processBatch at h
+      simp only [bind, Except.bind] at h
+      have hp1' := hp1
+      unfold ph1Init at hp1'
+      simp only [hp1', hb, List.isEmpty_nil, if_true, pure, Except.pure, Except.ok.injEq, Prod.mk.injEq] at h
+      exact h.2.symm
+    rw [ho, hbo.2.2] at hx
+    cases hx
+  · have hwin : p.sv.cache.window = none := hP.cfg.win
+    have hrel : (∀ s, (view cells s).Perm (view p.sv.cache.cells s)) ∧ PosBound cells := by
+      rcases hcells with ⟨rfl, _⟩ | hsome
+      · rw [hwin]; exact ⟨fun s => List.Perm.refl _, hP.coh.1⟩
+      · exact had cells hsome p hp1
+    have hfree := findStartLoc_free cells _ loc hfind
+    have hpc := store_PC p.sv.cache p.obs.batch pend loc cells hP.coh hP.cfg hP.bv hpu hrel.1 hrel.2 hfree
+    have houts : o.outs = (p.outs.zip logits).map fun (bi, t) => ((p.obs.batch.getD bi ⟨0, 0, 0⟩).seq, t) := by
+      have : o = (phase3 logits sv.seqs.length 0
+          { p.sv with nextSeq := nx, cache := { p.sv.cache with cells := store cells loc p.obs.batch } }
+          { p.obs with outs := (p.outs.zip logits).map fun (bi, t) => ((p.obs.batch.getD bi ⟨0, 0, 0⟩).seq, t) }).2 := by
+        rw [← hres]
+      rw [this, phase3_outs]
+    intro x hx
+    rw [houts] at hx
+    obtain ⟨⟨bi, t⟩, hmem, rfl⟩ := List.mem_map.mp hx
+    rw [hlog] at hmem
+    obtain ⟨hbi, ht⟩ := mem_zip_map _ _ _ _ hmem
+    simp only
+    have hbl := hbo.2.1 bi hbi
+    have hb := getD_mem p.obs.batch bi ⟨0, 0, 0⟩ hbl
+    generalize p.obs.batch.getD bi ⟨0, 0, 0⟩ = b at hb ht ⊢
+    have hj : b.seq < p.sv.cache.slots.length := hbo.1 b hb
+    obtain ⟨hv, hl⟩ := hP.bv.1 b.seq hj
+    have hkey := key_mem_view p.obs.batch b hb
+    rw [hv] at hkey
+    have hrange := canonFrom_mem _ _ _ hkey
+    simp only [BTok.cell, Cell.key] at hrange
+    have hpne : pend b.seq ≠ [] := by
+      intro hnil; rw [hnil] at hkey; cases hkey
+    have hu := hpu b.seq hj hpne
+    refine ⟨hj, b.pos, by omega, by omega, ?_⟩
+    rw [ht, hwin]
+    apply nextTok_perm
+    obtain ⟨hid, hok⟩ := hpc.2 b.seq hj
+    simp only at hid hok
+    rw [getSlot_eq _ _ hj] at hu ⊢
+    have hall := hok.2 hu
+    have hV := hok.1
+    simp only [hid] at hall hV
+    rw [filter_all _ _ (fun x hx => by simpa using hall x hx)] at hV
+    show (visible (store cells loc p.obs.batch) b.seq (b.pos : Int)).Perm _
+    rw [visible_eq_view]
+    unfold idealHistory
+    exact (hV.filter _).map _
+
+/-- the right-hand side of `processBatch_outputs` is what a fresh runner produces: any coherent cache whose
+    slot `i` has an empty record (a new runner after LoadCacheSlot, or one that erased everything) and that
+    processes the whole effective input `eff` from position 0 shows exactly `idealHistory eff p` at position `p` -/
+theorem ideal_is_fresh (vocab eosMod : Nat) (fresh : Cache) (hf : Coherent fresh) (i : Nat) (hif : i < fresh.slots.length)
+    (eff : List Tok) (locf : Nat) (huf : (getSlot fresh.slots i).inUse = true)
+    (hempty : (getSlot fresh.slots i).inputs = [])
+    (hfreef : ∀ x ∈ (fresh.cells.drop locf).take eff.length, x.seqs = [])
+    (hpos : (eff.length : Int) < maxI32) (p : Int) :
+    nextTok vocab eosMod (idealHistory eff p) =
+      nextTok vocab eosMod (visible (forward fresh i eff locf).cells i p) := by
+  have h2 := forward_exposes fresh hf i hif eff locf huf hfreef
+    (by rw [hempty]; simp only [List.length_nil]; omega) p
+  rw [hempty, List.nil_append] at h2
+  exact (nextTok_perm _ _ _ _ h2).symm
+
+/-- non-vacuity of `ideal_is_fresh` / `processBatch_outputs`: in the demo history the first pass batches the
+    prompts' first inputs; a brand-new runner that loads `1 2 3 4` and forwards it meets every hypothesis -/
+example : ∃ c1 i rest,
+    loadCacheSlot (mkServer maxI32 2 6 2 true true 7 0).cache [1, 2, 3, 4] 1 (fun _ _ _ => true) = .ok (c1, i, rest) ∧
+    rest = [1, 2, 3, 4] ∧ (getSlot c1.slots i).inputs = [] ∧ (getSlot c1.slots i).inUse = true ∧
+    (∀ x ∈ (c1.cells.drop 0).take 4, x.seqs = []) := by
+  refine ⟨_, _, _, rfl, rfl, rfl, rfl, by decide⟩
 
 /-! ## admission (`completion`'s slot-loading block) and whole histories -/
 
